@@ -1,7 +1,15 @@
 import GS.Ops
 import GS.OpsBf
 import GS.OpsPb
+import GS.OpsConstr
+import GS.OpsCdcl
+import GS.OpsOptim
+import GS.OpsMaxSat
+import GS.OpsAmo
+import GS.OpsExplain
+import GS.OpsBfModel
+import GS.OpsChan
 /-! Union of all op tables (one per model file group). -/
 namespace GS.OpsAll
-def table : List (String × (List String → Option String)) := GS.Ops.table ++ GS.OpsBf.table ++ GS.OpsPb.table
+def table : List (String × (List String → Option String)) := GS.Ops.table ++ GS.OpsBf.table ++ GS.OpsPb.table ++ GS.OpsConstr.table ++ GS.OpsCdcl.table ++ GS.OpsOptim.table ++ GS.OpsMaxSat.table ++ GS.OpsAmo.table ++ GS.OpsExplain.table ++ GS.OpsBfModel.table ++ GS.OpsChan.table
 end GS.OpsAll
